@@ -1,7 +1,7 @@
-\* Universe M (thorough): up to THREE modules on the quadrants of an 8x8 die (trunks 4x4 / 4x2 at x, y in {0, 4}: neighbours touch), at most one 2x1 branch in all, all kinds at every position, ratio limit 2; WILD.
+\* Universe M (thorough): up to THREE modules on the quadrants of a 9x8 die (trunks 4x4 / 4x2 at x, y in {0, 4}: neighbours touch), at most one 2x1 branch in all, all kinds at every position, ratio limit 2; WILD.
 SPECIFICATION Spec
 CONSTANTS
-  DW = 8
+  DW = 9
   DH = 8
   RP = 2
   RQ = 1
